@@ -1225,6 +1225,44 @@ func (r *e2Run) admin(ctx context.Context) {
 		_ = body
 		k++
 		toml := fmt.Sprintf("SessionExpiration = \"%dm0s\"\nPostMessageCooloff = \"%dms\"\nMaxChannels = %d\n[IRC]\n[[IRC.Operators]]\nName = \"root\"\nPassword = \"pw%d\"\n[TrustedBridges]\n\"b%d\" = \"bridge\"\n", 20+k, 100+g.Intn(400), 50+k, k, k)
+		if g.Chance(1, 6) {
+			// two administrators edit at the same time: both read revision N and post an update naming N in
+			// the same instant (possibly through different nodes). At most one of them may be accepted.
+			lead := r.leader()
+			if lead == nil || lead.raft.AppliedIndex() < lead.raft.LastIndex() {
+				continue
+			}
+			inForce := ircserver.VerifPriv(lead.ircNow()).Revision
+			type res struct {
+				code int
+				err  error
+				k    int
+			}
+			out := make(chan res, 2)
+			for t := 0; t < 2; t++ {
+				k++
+				kk := k
+				nd := g.Intn(len(r.nodes))
+				body := fmt.Sprintf("SessionExpiration = \"%dm0s\"\nPostMessageCooloff = \"%dms\"\nMaxChannels = %d\n[IRC]\n[[IRC.Operators]]\nName = \"root\"\nPassword = \"pw%d\"\n", 20+kk, 100+g.Intn(400), 50+kk, kk)
+				go func() {
+					h := basic()
+					h["X-RobustIRC-Config-Revision"] = strconv.FormatUint(inForce, 10)
+					rctx, cancel := context.WithTimeout(ctx, 25*time.Second)
+					defer cancel()
+					code, _, _, err := r.request(rctx, nd, "POST", "/config", h, body)
+					out <- res{code, err, kk}
+				}()
+			}
+			a, b := <-out, <-out
+			r.count("config_posts_concurrent_pairs", 1)
+			if a.err == nil && b.err == nil && a.code == 200 && b.code == 200 {
+				r.violate("C16", "bad-config-accepted", "two-updates-for-one-revision", "two updates (pw%d, pw%d) naming the same revision %d, posted in the same instant, were both accepted: one of them named a revision that was no longer current", a.k, b.k, inForce)
+			}
+			if (a.err == nil && a.code == 200) || (b.err == nil && b.code == 200) {
+				r.cfgAccepted++
+			}
+			continue
+		}
 		kind := g.Pick([]string{"valid", "valid", "valid", "stale", "future", "invalid-toml", "no-revision", "garbage-revision"})
 		h := basic()
 		sendRev := rev
